@@ -265,13 +265,13 @@ def symbologyModifier (st : PSt) : Nat :=
   else (if st.fnc1First then 3 else if st.fnc1Second then 5 else 1)
 
 /-- the parser on the bit string of the data codewords -/
-def parseBits (reg : Registry) (bits : List Bool) (ver : Nat) (hint : Hint) : Res Parsed := do
+def parseStream (reg : Registry) (bits : List Bool) (ver : Nat) (hint : Hint) : Res Parsed := do
   let st ← parseLoop reg ver hint (bits.length + 1) {} bits
   .ok ⟨st.segs, st.byteSegs, st.saSeq, st.saPar, symbologyModifier st⟩
 
 /-- `DecodedBitStreamParser_Decode(bytes, version, ecLevel, hints)` -/
 def parse (reg : Registry) (bytes : List Nat) (ver : Nat) (hint : Hint) : Res Parsed :=
-  parseBits reg (bytesToBits bytes) ver hint
+  parseStream reg (bytesToBits bytes) ver hint
 
 /-! ## format information -/
 
